@@ -258,3 +258,116 @@ func SameValue(a, b ssa.Value) bool {
 	}
 	return false
 }
+
+// Canon resolves a value through loads of single-assignment locals and of
+// closure free variables bound to such locals: `x := f(); go func(){ use(x) }()`
+// makes x a heap cell with one store; every load of it denotes f()'s result.
+func Canon(v ssa.Value) ssa.Value {
+	for i := 0; i < 10; i++ {
+		v = Strip(v)
+		u, ok := v.(*ssa.UnOp)
+		if !ok || u.Op != token.MUL {
+			return v
+		}
+		cell := u.X
+		if fv, ok := cell.(*ssa.FreeVar); ok {
+			cell = freeVarBinding(fv)
+			if cell == nil {
+				return v
+			}
+		}
+		al, ok := cell.(*ssa.Alloc)
+		if !ok {
+			return v
+		}
+		var stored ssa.Value
+		n := 0
+		for _, r := range Referrers(al) {
+			if st, ok := r.(*ssa.Store); ok && st.Addr == ssa.Value(al) {
+				stored = st.Val
+				n++
+			}
+		}
+		// stores through free variables in nested closures
+		n += storesViaClosures(al)
+		if n != 1 || stored == nil {
+			return v
+		}
+		v = stored
+	}
+	return v
+}
+
+// freeVarBinding returns the value bound to fv at the (unique) MakeClosure.
+func freeVarBinding(fv *ssa.FreeVar) ssa.Value {
+	fn := fv.Parent()
+	if fn == nil || fn.Parent() == nil {
+		return nil
+	}
+	idx := -1
+	for i, f := range fn.FreeVars {
+		if f == fv {
+			idx = i
+		}
+	}
+	var res ssa.Value
+	cnt := 0
+	EachInstr(fn.Parent(), func(i ssa.Instruction) {
+		if mc, ok := i.(*ssa.MakeClosure); ok && mc.Fn == ssa.Value(fn) && idx >= 0 && idx < len(mc.Bindings) {
+			res = mc.Bindings[idx]
+			cnt++
+		}
+	})
+	if cnt != 1 {
+		return nil
+	}
+	if inner, ok := res.(*ssa.FreeVar); ok {
+		return freeVarBinding(inner)
+	}
+	return res
+}
+
+// storesViaClosures counts stores to the cell al performed inside closures that
+// captured it.
+func storesViaClosures(al *ssa.Alloc) int {
+	n := 0
+	for _, r := range Referrers(al) {
+		mc, ok := r.(*ssa.MakeClosure)
+		if !ok {
+			continue
+		}
+		fn, _ := mc.Fn.(*ssa.Function)
+		if fn == nil {
+			continue
+		}
+		for i, b := range mc.Bindings {
+			if b == ssa.Value(al) && i < len(fn.FreeVars) {
+				n += storesToFreeVar(fn, fn.FreeVars[i])
+			}
+		}
+	}
+	return n
+}
+
+func storesToFreeVar(fn *ssa.Function, fv *ssa.FreeVar) int {
+	n := 0
+	for _, r := range Referrers(fv) {
+		switch x := r.(type) {
+		case *ssa.Store:
+			if x.Addr == ssa.Value(fv) {
+				n++
+			}
+		case *ssa.MakeClosure:
+			inner, _ := x.Fn.(*ssa.Function)
+			if inner == nil {
+				continue
+			}
+			for i, b := range x.Bindings {
+				if b == ssa.Value(fv) && i < len(inner.FreeVars) {
+					n += storesToFreeVar(inner, inner.FreeVars[i])
+				}
+			}
+		}
+	}
+	return n
+}
